@@ -17,7 +17,7 @@ import (
 
 var truthValues = []lang.Value{
 	lang.Bool(true), lang.Bool(false), lang.Null(),
-	lang.Int(0), lang.Int(1), lang.Int(-1), lang.Int(2), lang.Int(12), lang.Int(13), lang.Int(24), lang.Int(268), lang.Int(269), lang.Int(65535), lang.Int(-9007199254740993),
+	lang.Int(0), lang.Int(1), lang.Int(-1), lang.Int(2), lang.Int(12), lang.Int(13), lang.Int(24), lang.Int(268), lang.Int(269), lang.Int(65534), lang.Int(65535), lang.Int(65536), lang.Int(65537), lang.Int(131072), lang.Int(-65536), lang.Int(-9007199254740993),
 	lang.Float(0), lang.Float(0.5), lang.Float(-0.5), lang.Float(1e-7), lang.Float(3),
 	// not a number (neither positive nor anything else), and the infinities;
 	// these reach a script through fields, SetVariable, functions and float()
@@ -29,7 +29,7 @@ var truthValues = []lang.Value{
 }
 
 // truthProvenances: how the value reaches the truth-consuming position.
-var truthProvenances = []string{"literal", "assigned", "setvariable", "structfield", "mapfield", "builtin", "hostfunction", "absentname"}
+var truthProvenances = []string{"literal", "assigned", "setvariable", "structfield", "mapfield", "builtin", "hostfunction", "absentname", "folded"}
 
 // builtinExprFor returns an expression made of built-in calls that
 // evaluates to a freshly allocated object equal to v (ok=false if none).
@@ -84,6 +84,25 @@ func truthOperand(c *Case, prelude *string, name string, v lang.Value, prov stri
 		}
 		c.Obj.Fields = append(c.Obj.Fields, eng.Field{Name: "F" + name, V: v})
 		return lang.Name{N: "F" + name}, true
+	case "folded":
+		// arithmetic over small integer literals that the optimizer computes
+		// at Prepare time: 65536 as 256 * 256 + 0, -1 as 0 - (0 * 256 + 1), ...
+		if v.K != lang.KInt || v.I > 16000000 || v.I < -16000000 {
+			return nil, false
+		}
+		n := v.I
+		if n < 0 {
+			n = -n
+		}
+		lit := func(i int64) lang.Expr { return lang.Lit{V: lang.Int(i)} }
+		var e lang.Expr = lang.Binary{Op: "+", L: lang.Binary{Op: "*", L: lit(n / 256), R: lit(256)}, R: lit(n % 256)}
+		if n == 65536 && name == "r" {
+			e = lang.Binary{Op: "+", L: lit(65534), R: lit(2)}
+		}
+		if v.I < 0 {
+			e = lang.Binary{Op: "-", L: lit(0), R: e}
+		}
+		return e, true
 	case "absentname":
 		// null by absence: a name that is neither a variable nor a field
 		if v.K != lang.KNull {
